@@ -357,14 +357,34 @@ def s6(ctx, R):
                 return [(fd.Const(None), ("print", args[0] if args else None))]
             if g is not None and g not in (R.tosieve,) and m not in ("get_type",):
                 return fd.Inline(g)
+        fn = e.func
+        if isinstance(fn, ast.Name) and fn.id in R.cmod.funcs and fn.id not in interp.f.__dict__.get("_locals", ()):
+            # a helper of the module, possibly handed the command itself (`definition_index(self)`)
+            g = R.cmod.funcs[fn.id]
+            sp = None
+            for p_, a_ in zip(g.params, e.args):
+                if isinstance(a_, ast.Name) and a_.id == interp.selfname:
+                    sp = p_
+            return fd.Inline(g, self_param=sp)
+        if isinstance(fn, ast.Name) and fn.id in R.cmod.classes and not kw:
+            # a record type of the module (NamedTuple / dataclass): the fields in declaration order
+            c = R.cmod.classes[fn.id]
+            bases = {norm(b).split(".")[-1] for b in c.node.bases}
+            decos = {norm(d).split(".")[-1].split("(")[0] for d in c.node.decorator_list}
+            flds = [st_.target.id for st_ in c.node.body if isinstance(st_, ast.AnnAssign) and isinstance(st_.target, ast.Name)]
+            if ("NamedTuple" in bases or "dataclass" in decos) and len(flds) == len(args) and all(isinstance(a, fd.Const) for a in args):
+                return [(fd.Const(fd.Rec(c.name, **{k: a.v for k, a in zip(flds, args)})), None)]
         return None
+    from sa.util import module_resolver
+    _mod_resolve = module_resolver(ctx.program, R.cmod)
     n = 0
     for what, slot, val, extra, (label, expect) in scenarios:
         n += 1
         env = {"self.args_definition": fd.Const([slot]), "self.arguments": fd.Const({"slot": val}),
                "self.extra_arguments": fd.Const({"slot": extra} if extra is not None else {}), "self.accept_children": fd.Const(False),
                "self.name": fd.Const("cmd"), "indentlevel": fd.Const(0)}
-        it = fd.Interp(f.node, R.Command.name, oracle, loop_unroll=max(2, len(expect) + 1 if isinstance(expect, list) else 2), max_depth=2)
+        it = fd.Interp(f.node, R.Command.name, oracle, loop_unroll=max(2, len(expect) + 1 if isinstance(expect, list) else 2), max_depth=2,
+                       resolve=_mod_resolve)
         try:
             paths = it.run(env)
         except fd.TooManyPaths:
